@@ -224,7 +224,7 @@ func (r *Run) checkAuthorizeResponse(cs *ClientSpec, q url.Values, res *Resp, pu
 			want = r.parState
 		}
 		got := res.Params().Get("state")
-		if got != want {
+		if got != want && isVSCHAR(want) { // states outside RFC 6749's VSCHAR grammar have no defined transport
 			r.violate("C13", "state-not-echoed", "", "state %q came back as %q (error %q)", want, got, res.ErrName)
 		}
 	}
@@ -476,3 +476,12 @@ func (r *Run) checkJWTAccessToken(tok string, g *Grant, c *Cred) {
 }
 
 var _ = fmt.Sprintf
+
+func isVSCHAR(s string) bool {
+	for i := 0; i < len(s); i++ {
+		if s[i] < 0x20 || s[i] > 0x7e {
+			return false
+		}
+	}
+	return true
+}
